@@ -1109,6 +1109,7 @@ struct Shared {
     outcomes: HashSet<String>,
     samples: Vec<Value>,
     errors: Vec<String>,
+    unreproducible: Vec<String>,
 }
 
 /// Exploration of one program: a pool of interactive sessions walks the state graph; every
@@ -1185,6 +1186,14 @@ pub fn explore_program(p: &Prog, cands: &[Cand], cfg: &ExploreCfg, part: &mut Pa
         part.violate(format!("{}:machinery", cfg.prop), e, json!({}));
         part.exhaustive = false;
     }
+    if !g.unreproducible.is_empty() {
+        part.exhaustive = false;
+        part.caps_hit.push(format!("{} state(s) observed once could not be reached again and were not expanded", g.unreproducible.len()));
+        let e = part.extra.entry("unreproducible_observations".to_string()).or_insert(json!([]));
+        if let Some(a) = e.as_array_mut() {
+            a.extend(g.unreproducible.iter().take(5).map(|s| json!(s)));
+        }
+    }
     let e = part.extra.entry("sessions".to_string()).or_insert(json!(0));
     *e = json!(e.as_u64().unwrap_or(0) + g.sessions);
     let e = part.extra.entry("replayed_prefix_steps".to_string()).or_insert(json!(0));
@@ -1199,6 +1208,7 @@ fn walk(p: &Prog, cands: &[Cand], cfg: &ExploreCfg, shared: &Mutex<Shared>, star
     let replay_of = |path: &[Action]| json!({"engine":"e2e","prop":cfg.prop,"exe":p.built.exe,"cands":cands,"path":path,"history":path.iter().map(|a| a.label(cands)).collect::<Vec<_>>()});
     let timeout = Duration::from_secs(90);
     let mut attempt = 0;
+    let mut reached_keys: Vec<String> = vec![];
     let (mut sess, mut m, mut path, mut findings, mut last_obs) = loop {
         attempt += 1;
         let mut sess = match ISession::start("e2e", &init_json(p, cfg.oracles.bt)) {
@@ -1235,8 +1245,15 @@ fn walk(p: &Prog, cands: &[Cand], cfg: &ExploreCfg, shared: &Mutex<Shared>, star
         }
         // the state is located by hashes of the machine state; a rare mislocation (or a worker
         // that died under load) is retried twice before it counts as nondeterminism
+        reached_keys.push(failed.clone().unwrap_or(reached.clone()));
         if attempt >= 3 {
-            shared.lock().unwrap().errors.push(failed.unwrap_or_else(|| format!("[{}] nondeterminism: replaying {:?} reached {} instead of {} (3 attempts)", p.name(), path.iter().map(|a| a.label(cands)).collect::<Vec<_>>(), reached, start_key)));
+            let mut g = shared.lock().unwrap();
+            if failed.is_none() && reached_keys.iter().all(|k| k == &reached_keys[0]) {
+                // three fresh sessions agree with each other, not with the state recorded once
+                g.unreproducible.push(format!("[{}] {:?}: recorded once {}, replayed three times {}", p.name(), path.iter().map(|a| a.label(cands)).collect::<Vec<_>>(), start_key, reached));
+            } else {
+                g.errors.push(failed.unwrap_or_else(|| format!("[{}] nondeterminism: replaying {:?} reached {:?} instead of {}", p.name(), path.iter().map(|a| a.label(cands)).collect::<Vec<_>>(), reached_keys, start_key)));
+            }
             return;
         }
         sess.kill();
